@@ -780,7 +780,7 @@ func (m *Machine) store(fr *frame, t types.Type, addr value, v value) {
 		}
 		m.storeCell(fr, t, a, v)
 	case SymRef:
-		i := m.concretize(a.idx, 64, "store index")
+		i := m.concretize(a.idx, 256, "store index")
 		m.storeCell(fr, t, &a.base[i], v)
 	default:
 		panic(fmt.Sprintf("engine: store to %T", addr))
